@@ -435,8 +435,15 @@ impl World {
         if !act.ok {
             if let Some(d) = diff_scans(&pre_scan, &post_scan) {
                 let bank = pre_scan.iter().filter(|(k, _)| k.starts_with(b"\x00\x04bank")).ne(post_scan.iter().filter(|(k, _)| k.starts_with(b"\x00\x04bank")));
-                let owners = vec!["C01"];
+                let mut owners = vec!["C01"];
                 let _ = bank;
+                // "otherwise the failure propagates and the parent fails as a whole" (C02): the failure
+                // came from a sub-message or a reply, below an entry point that itself returned Ok
+                let entered = pred.trace.iter().filter(|e| e.kind != puppet::Kind::Query).count();
+                let single_root = !matches!(&call, Call::Multi(_, msgs, _) if msgs.len() > 1);
+                if pred.whys.iter().any(|(_, w)| matches!(w, model::Why::AfterUncaught)) || (single_root && entered >= 2 && pred.failures >= 1 && !pred.ok) {
+                    owners.push("C02");
+                }
                 discs.push(Disc { owners, sig: "atomicity:failed-call-changed-state".into(), msg: format!("the call returned Err but chain storage changed: {}", d), model_free: true });
             }
         }
@@ -466,7 +473,17 @@ impl World {
                 let extra: BTreeSet<String> = it.st.contracts.keys().cloned().collect();
                 let real_obs = self.observe_real(&extra);
                 let model_obs = World::observe_model(&it.st);
-                discs.extend(compare_state(&model_obs, &real_obs, pred.failures, &it.ever_written));
+                let mut sd = compare_state(&model_obs, &real_obs, pred.failures, &it.ever_written);
+                if pred.ok && act.ok {
+                    // "returns Ok with every effect of the whole message tree persisted" (C01): the call
+                    // succeeded as it should, but what it left behind is not what the tree produces
+                    for d in sd.iter_mut() {
+                        if !d.owners.contains(&"C01") {
+                            d.owners.push("C01");
+                        }
+                    }
+                }
+                discs.extend(sd);
             }
             discs.push(d);
         }
@@ -500,7 +517,17 @@ impl World {
                 let extra: BTreeSet<String> = it.st.contracts.keys().cloned().collect();
                 let real_obs = self.observe_real(&extra);
                 let model_obs = World::observe_model(&it.st);
-                discs.extend(compare_state(&model_obs, &real_obs, pred.failures, &it.ever_written));
+                let mut sd = compare_state(&model_obs, &real_obs, pred.failures, &it.ever_written);
+                if pred.ok && act.ok {
+                    // "returns Ok with every effect of the whole message tree persisted" (C01): the call
+                    // succeeded as it should, but what it left behind is not what the tree produces
+                    for d in sd.iter_mut() {
+                        if !d.owners.contains(&"C01") {
+                            d.owners.push("C01");
+                        }
+                    }
+                }
+                discs.extend(sd);
                 if act.ok {
                     if let Some(d) = compare_responses(&pred.responses, &act.responses) {
                         discs.push(d);
@@ -733,6 +760,13 @@ impl TreeCheck {
                 }
             }
         }
+        if id == "C08" {
+            let d = namespace_probe(&mut w);
+            cx.label("probe:address-variants");
+            if !report(&d, h.txs.len(), "write through contract_storage_mut under a variant of a contract's address", cx)? {
+                return Ok(());
+            }
+        }
         if nontrivial {
             cx.mark_nontrivial();
         }
@@ -855,6 +889,70 @@ fn views_agree(w: &World) -> Vec<Disc> {
     out
 }
 
+/// C08: the key space is a function of the exact address. Storage written (through App's accessor)
+/// under a string that merely resembles a contract's address - other letter case, one character
+/// more or less, a separator appended, the empty string - is a different key space: no contract's
+/// data changes, exactly one root key appears, the accessor, the dump and the raw view of that
+/// address show it, and removing it restores the root store byte for byte.
+fn namespace_probe(w: &mut World) -> Vec<Disc> {
+    let mut out = vec![];
+    let existing: Vec<String> = w.st.contracts.keys().cloned().collect();
+    let mut variants: Vec<String> = vec![String::new()];
+    for a in existing.iter().take(3) {
+        variants.push(a.to_uppercase());
+        let mut c = a.clone();
+        if let Some(f) = c.get_mut(0..1) {
+            f.make_ascii_uppercase();
+        }
+        variants.push(c);
+        variants.push(format!("{}\0", a));
+        variants.push(format!("{}/", a));
+        variants.push(format!("{} ", a));
+        variants.push(a[..a.len() - 1].to_string());
+        variants.push(format!("{}{}", a, a));
+    }
+    variants.retain(|v| !existing.contains(v));
+    variants.sort();
+    variants.dedup();
+    let dumps = |w: &World| -> Vec<Vec<(Vec<u8>, Vec<u8>)>> { existing.iter().map(|a| w.app.dump_wasm_raw(&Addr::unchecked(a.clone()))).collect() };
+    for v in variants {
+        let x = Addr::unchecked(v.clone());
+        let root_before = scan(w.app.storage());
+        let dumps_before = dumps(w);
+        let foreign_before = w.app.dump_wasm_raw(&x);
+        if !foreign_before.is_empty() {
+            out.push(Disc::new(&["C08"], "namespace:variant-address-sees-data", format!("no contract lives at {:?}, yet its key space lists {} entries (a contract's data shows up under another address)", v, foreign_before.len())));
+            return out;
+        }
+        w.app.contract_storage_mut(&x).set(b"probe", b"\x01");
+        let dumps_after = dumps(w);
+        if dumps_after != dumps_before {
+            let which = existing.iter().zip(dumps_before.iter().zip(dumps_after.iter())).find(|(_, (b, a))| b != a).map(|(a, _)| a.clone()).unwrap_or_default();
+            out.push(Disc::new(&["C08"], "namespace:write-under-variant-address-visible", format!("a write into the key space of {:?} changed the storage of the contract at {:?}", v, which)));
+            w.app.contract_storage_mut(&x).remove(b"probe");
+            return out;
+        }
+        let root_after = scan(w.app.storage());
+        let added: Vec<&(Vec<u8>, Vec<u8>)> = root_after.iter().filter(|e| !root_before.contains(e)).collect();
+        if added.len() != 1 || root_after.len() != root_before.len() + 1 {
+            out.push(Disc::new(&["C08"], "namespace:write-changed-other-keys", format!("one write into the key space of {:?} changed the root store by {:?}", v, diff_scans(&root_before, &root_after))));
+            return out;
+        }
+        let got = w.app.contract_storage(&x).get(b"probe");
+        let dump = w.app.dump_wasm_raw(&x);
+        if got != Some(vec![1]) || dump != vec![(b"probe".to_vec(), vec![1u8])] {
+            out.push(Disc::new(&["C08"], "views:accessor", format!("after one write into the key space of {:?} the accessor reads {:?} and the dump lists {:?}", v, got, dump)));
+            return out;
+        }
+        w.app.contract_storage_mut(&x).remove(b"probe");
+        if scan(w.app.storage()) != root_before {
+            out.push(Disc::new(&["C08"], "namespace:remove-changed-other-keys", format!("removing the key written under {:?} did not restore the root store", v)));
+            return out;
+        }
+    }
+    out
+}
+
 fn kind_name(k: &TxKind) -> &'static str {
     match k {
         TxKind::Exec { via: Via::Execute, .. } => "execute",
@@ -877,7 +975,7 @@ const RULES: &[(&str, &str, &str)] = &[
     ("C03", "exploration", "same generator biased to replying modes, ids from {0,1,small,u64::MAX,random} with duplicates, payloads 2-258 bytes; oracle: the reply entries of the complete out-of-band trace (position, contract, id, payload, ok/err, carried events/data) equal the reference. Non-trivial call: >=2 replies in a trace of >=4 entries; distinct = distinct serialised history"),
     ("C04", "exploration", "same generator with attributes/events/data on most nodes; oracle: AppResponse events and data of every successful call (and the events/data inside every Reply) equal the reference composition. Non-trivial call: successful tree of depth>=1 with >=1 reply; distinct = distinct serialised history"),
     ("C05", "exploration", "same generator biased to attached funds relative to balances (0, half, all, all+1, zero coins), block updates and sudo/migrate entry points; oracle: sender, funds, env.contract.address, env.block and own balance at entry of every trace entry equal the reference; overdraft => callee absent from the trace; balances afterwards. Non-trivial call: trace of >=3 entries; distinct = distinct serialised history"),
-    ("C08", "exploration", "same generator with hostile storage keys (raw prefixes of bank/wasm/staking, other contracts' namespaces, empty key, equal keys across contracts); oracle: every node's full scan at entry equals its own contract's expected storage, raw queries / dump_wasm_raw / contract_storage agree, no other partition of the root store changes. Non-trivial call: trace of >=2 entries; distinct = distinct serialised history"),
+    ("C08", "exploration", "same generator with hostile storage keys (raw prefixes of bank/wasm/staking, other contracts' namespaces, empty key, equal keys across contracts); oracle: every node's full scan at entry equals its own contract's expected storage, raw queries / dump_wasm_raw / contract_storage agree, no other partition of the root store changes; at the end of every history, writes through contract_storage_mut under variants of the contracts' addresses (other letter case, one character more or less, separator or NUL appended, doubled, empty) must land in a key space of their own. Non-trivial call: trace of >=2 entries; distinct = distinct serialised history"),
     ("C10", "exploration", "same generator with queries (bank balance/all/supply, wasm raw/smart/contract-info/code-info, custom; nested smart queries) at entry and after own writes on most nodes and as App-level query batches issued twice; oracle: storage unchanged by queries, second answer equals first, every in-contract result equals the reference evaluated on the state at that point of the tree. Non-trivial call: trace of >=2 entries; distinct = distinct serialised history"),
     ("C13", "fault_enumeration", "same generator with attribute keys / event types drawn from a boundary grammar (empty, whitespace-only incl. unicode spaces, _x, ' _x', x_, 1-byte types, 2-byte 1-char types) at every entry point and depth, with fault flipping as in C01; oracle: a node is malformed iff the independent predicate says so, and then behaves exactly like a failed call; accepted strings surface unchanged. Non-trivial call: tree containing a malformed node; distinct = distinct serialised history"),
     ("C11", "exploration", "registry profile: code stores (plain, with creator, explicit ids incl. sparse/0/duplicate, duplicate_code), instantiate / instantiate2 (any code incl. unknown, salts from a small pool, labels incl. empty, admins, overdrawn funds, failing init nodes) top-level, via helpers and from contracts, migrations; oracle: returned ids/addresses, CodeInfo, ContractInfo/contract_data and usability of every stored code equal the reference registry. Non-trivial call: trace of >=2 entries; distinct = distinct serialised history"),
